@@ -236,8 +236,9 @@ func c10Sequence(c *Ctx, kind string, keys []string, seqIdx int) {
 		before := takeSnap(r, buckets)
 		addr := map[string]bool{b + "\x00" + k: true}
 		bucketOp := ""
+		copyInternal := ""
 		var line, obs, opName string
-		switch x := c.Rng.Intn(14); {
+		switch x := c.Rng.Intn(15); {
 		case x < 5:
 			opName = "put"
 			line, obs = r.Put(b, k, nil, []byte(fmt.Sprintf("new:%d", i)))
@@ -265,6 +266,14 @@ func c10Sequence(c *Ctx, kind string, keys []string, seqIdx int) {
 			line, lo = r.List(ListReq{Bucket: b, HasPrefix: true, Prefix: k, HasDelim: c.Rng.Intn(2) == 0, Delim: "/", ClampedMaxKeys: 1000})
 			obs = lo.Obs
 			addr = map[string]bool{}
+		case x < 14:
+			// the backend's own bookkeeping named as the SOURCE of a copy (the handler checks the
+			// destination bucket only): it must not read as an object
+			opName = "copy-from-internal"
+			sb := []string{"_meta", "_meta", "metadata", "buckets", ".", ".."}[c.Rng.Intn(6)]
+			sk := []string{"bucket/bk1", "bucket/bk2", "bucket/" + impl.SingleBucketName, "bk1/k", "bk2/secret", "k", ".modtime-resolution"}[c.Rng.Intn(7)]
+			line, obs = r.Copy(sb, sk, b, k, nil)
+			copyInternal = sb + "/" + sk
 		default:
 			// bucket-level operations with internal / hostile names
 			nb := []string{"_meta", "metadata", "buckets", ".", "..", "bk9", "bucket", ".modtime-resolution"}[c.Rng.Intn(8)]
@@ -309,6 +318,11 @@ func c10Sequence(c *Ctx, kind string, keys []string, seqIdx int) {
 					Spec: fmt.Sprintf("key %q is not among the bucket's keys: NoSuchKey (or a refusal)", k), Finger: "c10:phantom-key:" + c10KeyClass(k)})
 				return
 			}
+		}
+		if copyInternal != "" && !refused {
+			c.mismatch(Mismatch{Kind: "spec", Backend: kind, Case: append(append([]string{}, r.Lines...), line), Impl: trunc(obs, 120),
+				Spec: fmt.Sprintf("copy source %q names no bucket of the store: refused", copyInternal), Finger: "c10:internal-addressable:copy-source"})
+			return
 		}
 		// internals must not be addressable as buckets
 		if bucketOp != "" && !refused && (bucketOp == "_meta" || bucketOp == "." || bucketOp == ".." || bucketOp == "metadata" && false) {
